@@ -89,6 +89,10 @@ def _dgm(rng, n, fam):
     elif fam == "repeated":
         base = [[b, b + rng.uniform(0.1, 3)] for b in (rng.uniform(0, 6) for _ in range(max(1, n // 3)))]
         pts = [list(rng.choice(base)) for _ in range(n)]
+    elif fam == "decimal":
+        # decimal-grid coordinates (not exactly representable in binary64)
+        for _ in range(n):
+            b = rng.randint(-30, 60) / 10.0; pts.append([b, round(b + rng.randint(0, 40) / 10.0, 10)])
     elif fam == "straddle":
         # births below zero, deaths above: persistence large against the coordinates
         for _ in range(n):
@@ -112,7 +116,18 @@ def _repair(rng, S):
     return T
 
 
-FAMS = ["uniform", "uniform", "dyadic", "neardiag", "repeated", "heavy", "straddle"]
+FAMS = ["uniform", "uniform", "dyadic", "neardiag", "repeated", "heavy", "straddle", "decimal"]
+
+
+def _widen(rng, S):
+    """S with some bars widened symmetrically by a decimal amount (distance = a half-persistence difference)."""
+    T = []
+    for p in S:
+        e = rng.choice([0.1, 0.05, 0.2, 0.3, 0.15])
+        if rng.random() < 0.85:
+            T.append([p[0] - e, p[1] + e])
+    rng.shuffle(T)
+    return T
 
 
 def _size(rng, tier):
@@ -125,6 +140,8 @@ def _mono_case(rng, law, dist, nS, nT, nB=None):
     fam = rng.choice(FAMS)
     c = {"cls": law + ":" + dist, "law": law, "dist": dist, "fam": fam,
          "S": _dgm(rng, nS, fam), "T": _dgm(rng, nT, fam), "seed": rng.randrange(10 ** 6)}
+    if fam == "decimal" and law in ("translate", "BleW", "sym", "scale") and rng.random() < 0.7:
+        c["T"] = _widen(rng, c["S"])
     if law == "translate":
         c["c"] = rng.choice([1.0, -3.5, 17.25, 1e3, -250.0, rng.uniform(-50, 50)])
     if law == "scale":
